@@ -344,6 +344,11 @@ class State(object):
         if self.qdepth > 0:
             return      # under a quantifier binder: the term mentions bound variables
         t = v.t
+        if t.kind == 'tuple':
+            dt = T.sort_of(t)
+            for i, a in enumerate(t.args):
+                self.assume_type(Val(a, dt.accessor(0, i)(v.z)))
+            return
         if t.kind == 'ref':
             self.assume(z3.And(v.z >= 0, v.z < self.alloc))
             if t.name in R.CLASSES and t.name != 'object':
@@ -510,6 +515,19 @@ class State(object):
                 # an empty container literal receives its element type from the typed context
                 self.init_empty(v, ty)
                 return v
+            if v.t.kind == 'list' and ty.kind == 'list' and v.t.args[0] != ty.args[0] \
+                    and T.sort_of(v.t.args[0]) != T.sort_of(ty.args[0]):
+                # same list object viewed at another element type (e.g. List[Tuple[E, Str]] returned as
+                # List[Tuple[E, Union[...]]]): its contents are re-stated in the heap map of the new sort
+                src = self.list_seq(v.z, v.t.args[0])
+                es = T.sort_of(ty.args[0])
+                k = z3.Int('k!cv')
+                conv = self.coerce(Val(v.t.args[0], z3.Select(src.arr, k)), ty.args[0]).z
+                narr = self.fresh(z3.ArraySort(z3.IntSort(), es), 'conv')
+                self.assume(z3.ForAll([k], z3.Implies(z3.And(0 <= k, k < src.n), z3.Select(narr, k) == conv),
+                                      patterns=[z3.Select(narr, k)]))
+                self.list_store(v.z, ty.args[0], SeqV(narr, src.n))
+                return Val(ty, v.z)
             if ty.kind == 'ref' or v.t.kind == ty.kind:
                 return Val(ty, v.z)
         if ty.kind == 'ref' and v.t.kind == 'ref':
